@@ -349,6 +349,13 @@ func runC11(c *Ctx) {
 	r11_1(c, a, ns, "R11.1")
 	r11_2(c, a, ns, "R11.2")
 	r11_4(c, a)
+	t := c.tables()
+	if !c.extractorProblems(t, "lexemes", "parser", "printer") {
+		g := c.grammar(t)
+		c.rule("R11.3", "mandatory children are assigned: every child field a printer dereferences without a nil test is filled with a sub-parse on every success path of the parse method that builds the node")
+		c.floor(25)
+		ruleTokenOrder(c, t, g, "assigned")
+	}
 }
 
 // R11.1 no typed nil into an interface slot
